@@ -165,4 +165,4 @@ def shard(ctx):
 def parent_post(tier, seed, merged):
     """Coverage-guided byte-level fuzzing (atheris) with the C08 oracle inside the target; skipped (and said so) if atheris is missing."""
     from ..fuzz import driver
-    return driver.run('C08', tier, seed, jobs_quick=8, jobs_thorough=16, runs_quick=4000, runs_thorough=250000)
+    return driver.run('C08', tier, seed, jobs_quick=8, jobs_thorough=16, runs_quick=4000, runs_thorough=150000)
